@@ -154,6 +154,42 @@ Definition custom_cls (bv : bvar) (k : ckind) (V : ver) (n : ustring) (xt : opti
      cslots := custom_slots bv k V n xt user;
      ccons := []; cinit := INone; cidcontrib := []; cserialize_tlp := false |}.
 
+(* ---- what the `cls` record has no place for, as data ---- *)
+
+(* _custom_observable_builder: `if version != '2.0': _id_contributing_properties = id_contrib_props` *)
+Definition with_contrib (c : cls) (contrib : list ustring) : cls :=
+  {| cid := cid c; cver := cver c; ctype := ctype c; cfamily := cfamily c; cslots := cslots c; ccons := ccons c;
+     cinit := cinit c;
+     cidcontrib := match cfamily c, cver c with FSco, V21 => contrib | _, _ => [] end;
+     cserialize_tlp := cserialize_tlp c |}.
+
+Definition set_cid (c : cls) (id : ustring) : cls :=
+  {| cid := id; cver := cver c; ctype := ctype c; cfamily := cfamily c; cslots := cslots c; ccons := ccons c;
+     cinit := cinit c; cidcontrib := cidcontrib c; cserialize_tlp := cserialize_tlp c |}.
+
+Record custom_info := {
+  ci_cls : cls;                          (* the class itself *)
+  ci_toplevel : list slot;               (* _toplevel_properties of a toplevel-property-extension *)
+  ci_with_extension : option ustring;    (* cls.with_extension: extension_name= of the v21 CustomObject / CustomObservable;
+                                            every instance gets extensions[<it>] = <the side class>() after construction *)
+  ci_side : option cls                   (* the NameExtension class registered on the side under that name *)
+}.
+
+Definition custom_info_of (bv : bvar) (k : ckind) (V : ver) (n : ustring) (xt : option Registry.exttype) (user : list slot)
+           (clsname : ustring) (contrib : list ustring) (extname : option ustring) : custom_info :=
+  let side_type := match k with CObservable => Registry.XNewSco | _ => Registry.XNewSdo end in
+  let named := match k, V, extname with
+               | CObject, V21, Some (c :: en) | CObservable, V21, Some (c :: en) => Some (c :: en)
+               | _, _, _ => None
+               end in
+  {| ci_cls := with_contrib (custom_cls bv k V n xt user clsname) contrib;
+     ci_toplevel := match k, xt with CExtension, Some Registry.XToplevel => ordered_dict user | _, _ => [] end;
+     ci_with_extension := named;
+     ci_side := match named with
+                | Some en => Some (set_cid (custom_cls bv CExtension V21 en (Some side_type) [] []) (Registry.extname_class en))
+                | None => None
+                end |}.
+
 (* ---- adding a class and its registry row to a world ---- *)
 
 Definition reg_add (k : ckind) (r : registry) (n cid : ustring) : registry :=
@@ -258,4 +294,9 @@ Definition show_cls (c : cls) : string :=
   ++ match ctype c with Some t => show_ustr t | None => "-" end ++ " " ++ show_family (cfamily c) ++ " "
   ++ "contrib" ++ show_ulist (cidcontrib c) ++ " "
   ++ String.concat " ; " (map show_slot (cslots c)).
+Definition show_info (i : custom_info) : string :=
+  show_cls (ci_cls i)
+  ++ " | toplevel " ++ String.concat " ; " (map show_slot (ci_toplevel i))
+  ++ " | with_extension " ++ match ci_with_extension i with Some e => show_ustr e | None => "-" end
+  ++ " | side " ++ match ci_side i with Some c => show_cls c | None => "-" end.
 Close Scope string_scope.
